@@ -275,6 +275,23 @@ func readMessage(r io.Reader, onBody func(total int) bool) *message {
 
 var errStopReading = errors.New("raw peer stopped reading on purpose")
 
+// boundGap returns the pause between write segments, or 0 when pausing would stretch the transfer beyond about
+// two seconds of virtual time (tiny segments of a long stream).
+func boundGap(total int, cuts []int, gapMs int) time.Duration {
+	if gapMs <= 0 || len(cuts) == 0 {
+		return 0
+	}
+	sum := 0
+	for _, c := range cuts {
+		sum += max(c, 1)
+	}
+	segments := total * len(cuts) / sum
+	if segments*gapMs > 2000 {
+		return 0
+	}
+	return time.Duration(gapMs) * time.Millisecond
+}
+
 // writeCut writes data in segments of the given sizes (cycled); a gap > 0 lets virtual time pass between segments
 // so that they travel in different packets.
 func writeCut(w io.Writer, data []byte, cuts []int, gap time.Duration) error {
